@@ -255,14 +255,15 @@ theorem spans : ∀ (F : Nat),
         obtain ⟨⟨ps, b, r⟩, h1, h2⟩ := PR.bind_ok _ _ _ h
         simp only at h2
         split at h2
-        ·           obtain ⟨⟨body, r2⟩, h3, h4⟩ := PR.bind_ok _ _ _ h2
+        · obtain ⟨⟨body, r2⟩, h3, h4⟩ := PR.bind_ok _ _ _ h2
           simp only at h4
           split at h4
           · simp only [PR.ok.injEq, Prod.mk.injEq] at h4; obtain ⟨rfl, rfl⟩ := h4
             have hs' := hs
             simp only [Sorted] at hs
             obtain ⟨hb1, hsr⟩ := symbols_spans F _ _ _ _ _ hs'.2.2 h1
-              simp only [Sorted] at hsr
+            simp only at hb1
+            simp only [Sorted] at hsr
             obtain ⟨hn, hb, hbe, hr⟩ := ihP _ _ _ _ hsr.2.2 h3
             simp only [Sorted] at hr
             have hx1 : b ≤ body.e := by omega
@@ -283,7 +284,7 @@ theorem spans : ∀ (F : Nat),
           obtain ⟨hb, hbe, hr⟩ := (q_spans F).2 _ _ _ _ _ _ hs.2.2 h1
           simp only [Sorted] at hr
           exact ⟨by simp [PE.nested, PK.nestedIn, hbe],
-            by simp only [PE.b_mk]; omega, hbe, hr.2.2.mono (by omega)⟩
+            by simp only [PE.b_mk]; omega, hbe, hr.2.2.mono (by simp only [PE.e_mk]; omega)⟩
         · simp at h2
       · simp at h
     -- `arg` and `call`
